@@ -111,6 +111,12 @@ func umCorpusExtra() []UCase {
 					Causes: []*UDoc{{Msg: "c1", Kind: order[1], Fields: map[string]int{"n": umValueIndex(val[order[1]])}},
 						{Msg: "c2", Kind: order[0], Fields: map[string]int{"n": umValueIndex(val[order[0]])}}}}})
 		}
+		// two DISTINCT custom keys of one name that both accept the value (int and float64 "n"; string twice):
+		// the first one binds, the field is exposed once
+		for _, custom := range [][]int{{2, 39}, {39, 2}, {0, 1}, {4, 2, 39}} {
+			out = append(out, UCase{Cfg: UCfg{Defs: []UDef{{Kind: "k1", Keys: []int{15}}}, Reg: []int{0}, Strict: strict, Custom: custom},
+				Doc: &UDoc{Msg: "m", Kind: "k1", Fields: map[string]int{"n": umValueIndex("f3"), "s": umValueIndex("str")}}})
+		}
 		// a REGISTERED definition with the empty kind beside a default definition: a kind-less node is that
 		// definition's, never the default's
 		out = append(out, UCase{Cfg: UCfg{Defs: []UDef{{Kind: ""}, {Kind: "kd"}}, Reg: []int{0}, Default: &dflt, Strict: strict},
